@@ -564,6 +564,66 @@ theorem add_algebra (e e₂ : Epoch) (x y : ℚ) (h0 : -1 / 2 ≤ e.jde) (hx : -
     cases Epoch.init (.number (e.jde + -x)) <;> rfl
   · exact ⟨_, _, rfl, rfl, by ring⟩
 
+/-! ### Calendar order is Julian-Day order (added in the last growth round) -/
+
+/-- date -> JD is injective on civil dates (the "bijection" of C01 read from the other side; follows from
+    `C01.roundtrip`). -/
+theorem jd_injective (y m d y' m' d' : Int) (h : Valid y m d) (h' : Valid y' m' d')
+    (e : compute_jde y m (ofInt d) = compute_jde y' m' (ofInt d')) : (y, m, d) = (y', m', d') := by
+  have r := C01.roundtrip y m d h
+  have r' := C01.roundtrip y' m' d' h'
+  rw [e, r'] at r
+  injection r with r
+  simp only [Prod.mk.injEq] at r ⊢
+  exact ⟨r.1.symm, r.2.1.symm, by exact_mod_cast r.2.2.symm⟩
+
+/-- `dateLt` is asymmetric (a strict order), used below. -/
+theorem dateLt_asymm (a b : Int × Int × Int) (h : dateLt a b) : ¬ dateLt b a := by
+  unfold dateLt at *; omega
+
+/-- A later Julian Day is a later civil date and conversely: for two civil dates the order of the day numbers
+    computed by the constructor IS the lexicographic order of (year, month, day) - across month ends, year ends,
+    the year 0 and the 1582 reform alike. -/
+theorem jd_order_iff_date_order (y m d y' m' d' : Int) (h : Valid y m d) (h' : Valid y' m' d') :
+    compute_jde y m (ofInt d) < compute_jde y' m' (ofInt d') ↔ dateLt (y, m, d) (y', m', d') := by
+  have key : ∀ (a b c a' b' c' : Int), Valid a b c → Valid a' b' c' →
+      compute_jde a b (ofInt c) < compute_jde a' b' (ofInt c') → dateLt (a, b, c) (a', b', c') := by
+    intro a b c a' b' c' v v' hlt
+    have e1 := compute_jde_int a b c v
+    have e2 := compute_jde_int a' b' c' v'
+    have hz0 : 0 ≤ jdnI a b c := by
+      obtain ⟨hy, hm1, hm12, hd1, hdl, _⟩ := v
+      unfold jdnI
+      have e1 : ∀ Y : Int, 1461 * Y / 4 = 365 * Y + Y / 4 := by intro Y; omega
+      simp only [e1, isJulianI]
+      interval_cases b <;> simp <;> split_ifs <;> omega
+    have hn : (0 : ℚ) ≤ (jdnI a b c : ℚ) := by exact_mod_cast hz0
+    have h0 : -1 / 2 ≤ compute_jde a b (ofInt c) := by rw [e1]; linarith
+    have hfl : ⌊compute_jde a b (ofInt c) + 1 / 2⌋ < ⌊compute_jde a' b' (ofInt c') + 1 / 2⌋ := by
+      rw [e1, e2] at hlt ⊢
+      have : (jdnI a b c : ℚ) < jdnI a' b' c' := by linarith
+      have hz : jdnI a b c < jdnI a' b' c' := by exact_mod_cast this
+      simpa using hz
+    obtain ⟨y₁, m₁, d₁, y₂, m₂, d₂, g1, g2, hl⟩ := date_strictly_monotone _ _ h0 hfl
+    rw [C01.roundtrip a b c v] at g1
+    rw [C01.roundtrip a' b' c' v'] at g2
+    injection g1 with g1; injection g2 with g2
+    simp only [Prod.mk.injEq] at g1 g2
+    obtain ⟨rfl, rfl, rfl⟩ := g1
+    obtain ⟨rfl, rfl, rfl⟩ := g2
+    simpa using hl
+  constructor
+  · exact key y m d y' m' d' h h'
+  · intro hl
+    rcases lt_trichotomy (compute_jde y m (ofInt d)) (compute_jde y' m' (ofInt d')) with l | e | g
+    · exact l
+    · have := jd_injective y m d y' m' d' h h' e
+      simp only [Prod.mk.injEq] at this
+      obtain ⟨rfl, rfl, rfl⟩ := this
+      exact absurd hl (by unfold dateLt; omega)
+    · exact absurd (key y' m' d' y m d h' h g) (dateLt_asymm _ _ hl)
+
+
 -- Non-vacuity: the hypotheses are met by concrete, non-trivial inputs, and the conclusions are not
 -- trivially true.
 example : get_full_date (2436116.31 : ℚ) = .ok (1957, 10, 4, 19, 26, 24) := by decide +kernel
@@ -582,5 +642,9 @@ example : Valid 2000 2 29 ∧ ((29 : ℚ) + 1 / 2 < (monthLen 2000 2 : ℚ) + 1)
 example : (match Epoch.init (.many (.ymd 2001 (.num 8) 31 [0, 0, 0])) with | .ok e => some e.jde | .error _ => none) = some 2452152.5 ∧
     (match Epoch.init (.many (.ymd 2001 (.num 9) 31 [0, 0, 0])) with | .ok e => some e.jde | .error _ => none) = none := by
   decide +kernel
+
+example : Valid 1582 10 4 ∧ Valid 1582 10 15 ∧ dateLt (1582, 10, 4) (1582, 10, 15) ∧
+    compute_jde 1582 10 (ofInt 4) < compute_jde 1582 10 (ofInt 15) := by
+  refine ⟨by decide, by decide, by unfold dateLt; simp, by decide +kernel⟩
 
 end Pymeeus.C02
